@@ -25,6 +25,7 @@ def main():
     prop = a.prop.upper()
     tier = "thorough" if a.tier.startswith("t") else "quick"
     mod = importlib.import_module(f"p_{prop.lower()}")
+    os.environ["VERIF_TIER_EFFECTIVE"] = tier          # translators with tier-dependent bounds read this
     v = common.Verdict(prop, tier, seed)
     # step 1/2 of the protocol: static theories + props file + hygiene scan
     g = gate.run_gate(prop, v)
